@@ -148,8 +148,22 @@ def jobs_step(tier, seed):
     out = [dict(h="C14.stepslice", p=dict(ix="slice", n=4 if q else 5, s=s)) for s in ((2, -2, 3) if q else (2, -2, 3, -3))]
     # selections by masks (dense, run-length, run-length from a comparison): canonical result, the empty selection included
     out += [dict(h="C14.stepslice", p=dict(ix=ix, n=3 if q else 4)) for ix in ("mask", "rlmask", "rlmask_ufunc")]
+    # ufuncs on two run-length operands (independent, and derived from one array so that they share its boundaries): canonical results
+    out += [dict(h="C14.ufunc2", p=dict(kind="rr_shared", op=op, n=3 if q else 4)) for op in ("between", "selfsub", "timesmask")]
+    out += [dict(h="C14.ufunc2", p=dict(kind="rr", op=op, n=3)) for op in ("subtract", "less")]
     return out
 
 
 harness("C14.codec", jobs, sym, conc)
+def sym_uf2(E, p, kf):
+    from . import c16
+    return c16.sym_wrapped(E, p, kf)
+
+
+def conc_uf2(case):
+    from . import c16
+    return c16.conc(case)
+
+
 harness("C14.stepslice", jobs_step, sym_step, conc_step)
+harness("C14.ufunc2", lambda t, s: [], sym_uf2, conc_uf2)
